@@ -257,18 +257,27 @@ func c07Specs() []*edt.Spec {
 				"finish": func(e *edt.Env) edt.Tri { return e.V("done") },
 			},
 			Extra: func(p *edt.Path, out, class string, e *edt.Env, ab func(string) string) string {
-				// initialisation: x0 = (1 : 0), x1 = (u : 1), u decoded from the input point, bits of the scalar, from bit 254 down
-				pre := []string{"Element.SetBytes($point)", "montgomeryProjectivePoint.identity", "Element.Set(Element.SetBytes($point))", "Element.One", "Scalar.Bits($scalar)", "loop L0: φL0.0 starts as 254"}
-				if len(p.Events) < len(pre) {
-					return "ladder initialisation differs"
+				// initialisation (order-free): x0 = (1 : 0), x1 = (u : 1), u decoded from the input point, from bit 254 down
+				need := map[string]bool{
+					"loop L0: A<curve.montgomeryProjectivePoint>#0 enters as montgomeryProjectivePoint.identity":                                false,
+					"loop L0: A<curve.montgomeryProjectivePoint>#1 enters as agg(.U=(Element.Set(Element.SetBytes($point))), .W=(Element.One))": false,
+					"loop L0: φL0.0 starts as 254": false,
 				}
-				for i, w := range pre {
-					if p.Events[i] != w {
-						return "ladder initialisation differs (want x0 = identity, x1 = (u, 1), 255 scalar bits from bit 254): step " + fmt.Sprint(i) + " is " + clip(p.Events[i], 120) + ", want " + w
+				var rest []string
+				for _, ev := range p.Events {
+					if _, ok := need[ev]; ok {
+						need[ev] = true
+					}
+					if strings.HasPrefix(ev, "montgomeryProjectivePoint.conditionalSwap(") || strings.HasPrefix(ev, "curve.montgomeryDifferentialAddAndDouble(") || strings.HasPrefix(ev, "MontgomeryPoint.fromProjective(") {
+						rest = append(rest, ev)
+					}
+				}
+				for ev, ok := range need {
+					if !ok {
+						return "ladder initialisation differs (want x0 = identity, x1 = (u, 1), scalar bits from bit 254 down): missing «" + ev + "»"
 					}
 				}
 				const bits = "Scalar.Bits($scalar)"
-				rest := p.Events[len(pre):]
 				if class == "step" {
 					swap := "montgomeryProjectivePoint.conditionalSwap(" + x0 + ", " + x1 + ", (sel(" + bits + ", [(φL0.0 + 1)]) ^ sel(" + bits + ", [φL0.0])))"
 					dad := "curve.montgomeryDifferentialAddAndDouble(" + swap + ", out1(" + swap + "), Element.SetBytes($point))"
